@@ -328,7 +328,7 @@ pub fn set_values(
         .set_property(index_key, JsValue::Number(0.0));
 
     // Add next() method
-    let next_fn = interp.create_native_function("next", set_iterator_next, 0);
+    let next_fn = interp.create_native_function_in(&guard, "next", set_iterator_next, 0);
     guard.guard(next_fn.cheap_clone());
     iter_obj
         .borrow_mut()
@@ -339,7 +339,7 @@ pub fn set_values(
     let iterator_symbol =
         crate::value::JsSymbol::new(well_known.iterator, Some(interp.intern("Symbol.iterator")));
     let iterator_key = crate::value::PropertyKey::Symbol(Box::new(iterator_symbol));
-    let self_iterator_fn = interp.create_native_function("[Symbol.iterator]", set_iterator_self, 0);
+    let self_iterator_fn = interp.create_native_function_in(&guard, "[Symbol.iterator]", set_iterator_self, 0);
     guard.guard(self_iterator_fn.cheap_clone());
     iter_obj
         .borrow_mut()
@@ -478,7 +478,7 @@ pub fn set_entries(
         .set_property(index_key, JsValue::Number(0.0));
 
     // Add next() method (reuse the same iterator next function)
-    let next_fn = interp.create_native_function("next", set_iterator_next, 0);
+    let next_fn = interp.create_native_function_in(&guard, "next", set_iterator_next, 0);
     guard.guard(next_fn.cheap_clone());
     iter_obj
         .borrow_mut()
@@ -489,7 +489,7 @@ pub fn set_entries(
     let iterator_symbol =
         crate::value::JsSymbol::new(well_known.iterator, Some(interp.intern("Symbol.iterator")));
     let iterator_key = crate::value::PropertyKey::Symbol(Box::new(iterator_symbol));
-    let self_iterator_fn = interp.create_native_function("[Symbol.iterator]", set_iterator_self, 0);
+    let self_iterator_fn = interp.create_native_function_in(&guard, "[Symbol.iterator]", set_iterator_self, 0);
     guard.guard(self_iterator_fn.cheap_clone());
     iter_obj
         .borrow_mut()
